@@ -190,3 +190,31 @@ package db
 //@ func (*db.tableInterior).IterMin$1
 //@   implements functype db.interiorIterCB
 //@   free-requires cb != nil && rowid == skey && searching
+
+// ---------------------------------------------------------------------------------------
+// Payload assembly and the public low-level scans.
+//
+// fullpl(c, pl): provenance token: c is what addOverflow returned for cell payload pl (local bytes
+// followed by the content bytes of the overflow chain, cut to pl.Length). parsed(rec, c): rec is
+// what parseRecord returned for the bytes c (its per-field meaning is fixed by parseRecord's step
+// contract). Both are uninterpreted: the only way to know them is from these two postconditions.
+//@ smt tokens
+//@ (declare-fun fullpl (Slice S_db_cellPayload) Bool)
+//@ (declare-fun parsed (Slice Slice) Bool)
+
+//@ func (*db.Database).page
+//@   props C01 C05 C12
+//@   trusted typestate: the header was validated in this transaction (C15); the pager returns a fresh buffer of one page
+//@   pure
+//@   trusted-ensures err == nil ==> len(r0) >= 512 && len(r0) <= 65536 && fresh(r0)
+
+//@ func db.addOverflow
+//@   props C01 C02 C05 C12 C14
+//@   modifies mem alloc
+//@   requires wf_payload(pl)
+//@   ensures [len] err == nil ==> len(r0) == pl.Length
+//@   ensures [inline] err == nil && pl.Overflow == 0 ==> r0 == pl.Payload[:pl.Length]
+//@   trusted-ensures [token] err == nil ==> fullpl(r0, pl)
+//@   loop 1 invariant 0 <= len(to) && len(to) <= cap(to) && cap(to) <= 1099512676352 && ule(off(to), 4611686018427387904)
+//@   loop 1 invariant pl.Overflow == 0 ==> overflow == 0 && to == pl.Payload
+//@   loop 1 decreases pl.Length - len(to)
